@@ -47,6 +47,7 @@ class Gen:
         self.json_safe = False
         self._forced = None
         self._reserved = None
+        self.overlap_bias = 0.07       # probability that a union is one of records with nested field sets
         self.big_unions = True         # now and then a union of 66-80 branches
         self.error_records = True      # now and then a record is declared with "type": "error" (same thing everywhere but in the JSON grammar)
         self.empty_enums = False       # enums without symbols (no datum conforms): only where no data are needed
@@ -330,10 +331,33 @@ class Gen:
             br.append(d)
         return {"k": "union", "br": br}
 
+    def overlap_union(self, ns):
+        """A union of 2-3 records with nested field sets ({a,b} < {a,b,c} < ...): a datum of a later branch also conforms to the earlier
+        ones, so the branch is decided by the number of shared field names."""
+        r = self.r
+        names = r.sample(["a", "b", "c", "id", "x1", "value"], 4)
+        types = {n: {"k": "prim", "name": r.choice(["int", "long", "string", "double", "boolean"])} for n in names}
+        br = []
+        for k in range(r.choice([2, 3])):
+            full = self.full(ns, self.fresh("Ov"))
+            fields = [{"name": n, "type": dict(types[n]), "hasdef": False, "default": None, "aliases": []} for n in names[:2 + k]]
+            if r.random() < 0.3:
+                r.shuffle(fields)
+            d = {"k": "record", "full": full, "ns": ns, "aliases": [], "fields": fields}
+            self.defs[full] = d
+            br.append(d)
+        if r.random() < 0.4:
+            br.reverse()
+        if r.random() < 0.5:
+            br.insert(r.randint(0, len(br)), {"k": "prim", "name": "null"})
+        return {"k": "union", "br": br}
+
     def union(self, depth, ns):
         r = self.r
         if self.big_unions and r.random() < 0.04:
             return self.big_union(ns)
+        if depth > 0 and r.random() < self.overlap_bias:
+            return self.overlap_union(ns)
         n = r.choice([1, 2, 2, 2, 3, 3, 4, 5])
         br = []
         used = set()
